@@ -77,7 +77,10 @@ for n in names:
         else:
             shutil.rmtree(copy, ignore_errors=True)
     print(n, [(x["check"], x["verdict"]) for x in results[n]["verdicts"]], flush=True)
-    # merge under a re-read (several instances may run in parallel for different names)
+    # merge under a lock and a re-read (several instances may run in parallel for different names)
+    import fcntl
+    lockf = open(V + "/seeded/.results.lock", "w")
+    fcntl.flock(lockf, fcntl.LOCK_EX)
     cur = json.load(open(res_path)) if os.path.exists(res_path) else {}
     cur[n] = results[n]
     json.dump(cur, open(res_path, "w"), indent=1, sort_keys=True)
@@ -89,3 +92,4 @@ for n in names:
                 f.write("| %s | %s | %s | %s | %ss | %s |\n" % (k, x["property"], x.get("tier"), "; ".join("%s: %s" % (y["check"], y["verdict"]) for y in x["verdicts"]), x.get("wall_s"), x.get("repo")))
             else:
                 f.write("| %s | %s | | %s | | %s |\n" % (k, x["property"], x["verdict"], x.get("repo")))
+    lockf.close()
